@@ -279,6 +279,8 @@ struct Pg<'a> {
     p: Profile,
     out: Vec<String>,
     names: usize,
+    /// once the declaration has this many tokens, only minimal productions are chosen
+    budget: usize,
 }
 
 const TYPE_KW: &[&str] = &["i8", "i16", "i32", "i64", "i128", "u8", "u16", "u32", "u64", "u128", "usize", "bool", "char8"];
@@ -358,8 +360,11 @@ impl<'a> Pg<'a> {
             self.t(&l);
         }
     }
+    fn over(&self) -> bool {
+        self.out.len() >= self.budget
+    }
     fn primary(&mut self, depth: usize) {
-        if depth == 0 {
+        if depth == 0 || self.over() {
             return self.leaf();
         }
         match self.rng.below(14) {
@@ -440,7 +445,7 @@ impl<'a> Pg<'a> {
     }
     /// list of expressions closed by `close`
     fn list(&mut self, depth: usize, close: &str) {
-        let n = self.rng.range(self.p.list.0, self.p.list.1);
+        let n = if self.over() { 0 } else { self.rng.range(self.p.list.0, self.p.list.1) };
         for k in 0..n {
             self.expr(depth);
             if k + 1 < n || self.rng.chance(20) {
@@ -450,7 +455,7 @@ impl<'a> Pg<'a> {
         self.t(close);
     }
     fn expr(&mut self, depth: usize) {
-        let n = self.rng.range(self.p.chain.0, self.p.chain.1);
+        let n = if self.over() { 1 } else { self.rng.range(self.p.chain.0, self.p.chain.1) };
         match self.rng.below(10) {
             // arithmetic chain
             0..=6 => {
@@ -495,7 +500,7 @@ impl<'a> Pg<'a> {
         self.p = save;
     }
     fn stmt(&mut self, depth: usize) {
-        let r = if depth == 0 { self.rng.below(7) } else { self.rng.below(12) };
+        let r = if depth == 0 || self.over() { self.rng.below(7) } else { self.rng.below(12) };
         match r {
             0 | 1 => {
                 let v = self.fresh("v");
@@ -592,6 +597,9 @@ impl<'a> Pg<'a> {
     fn stmts(&mut self, depth: usize) {
         let n = self.rng.range(self.p.stmts.0, self.p.stmts.1);
         for _ in 0..n {
+            if self.over() {
+                break;
+            }
             self.stmt(depth);
         }
     }
@@ -691,7 +699,8 @@ pub fn gen_prog(seed: u64, i: usize) -> Input {
     let mut names = 0usize;
     loop {
         let decl = {
-            let mut g = Pg { rng: &mut rng, p, out: Vec::new(), names };
+            let room = (MAX_LEN - 16).saturating_sub(approx) / (sep + 3);
+            let mut g = Pg { rng: &mut rng, p, out: Vec::new(), names, budget: (target / 3).clamp(8, room.max(8)) };
             g.decl();
             names = g.names;
             g.out
